@@ -2005,7 +2005,7 @@ struct Gen {
                 push(query(allow_align && (!full || align_heavy)), d);
             return;
         }
-        int style = (int)r.below(7);
+        int style = (int)r.below(8);
         int64_t left = N;
         int items = 0;
         bool first = true;
@@ -2024,6 +2024,9 @@ struct Gen {
             case 3: len = 160; rep = r.range(1, 60); break;
             case 4: len = 2048; rep = r.range(1, 6); break;
             case 5: len = r.range(1, 12000); break;
+            case 6: // a short piece, then pieces far longer than the internal cepstrum buffer (128 frames)
+                len = first ? r.range(1, 6000) : r.range(20000, 60000);
+                break;
             default: len = r.chance(0.2) ? r.range(1, 50) : r.range(100, 6000); rep = r.chance(0.3) ? r.range(1, 8) : 1;
             }
             if (items == 39) { len = left; rep = 1; }
